@@ -21,7 +21,7 @@ CASES_PER_SHARD = 60
 SHARD_TIMEOUT = {"quick": 120, "thorough": 600}
 PROFILES = ["debug"]
 os.environ.setdefault("MW_IMPL_CASE_BUDGET", "0.25")
-os.environ.setdefault("MW_MODEL_CASE_BUDGET", "1.5")
+os.environ.setdefault("MW_MODEL_CASE_BUDGET", "0.6")
 
 MANIFEST = dict(
     text="Coq theorems (coq/Props/C06.v), for EVERY text: the scanner returns tokens or an error; the reader (scan + "
@@ -231,7 +231,12 @@ def MODEL_SKIP(case):
     """implementation-only: a form that mentions a builtin without a model anywhere"""
     if case[0] not in (70, 72):
         return False
-    return any(w in UNMODELLED for f in forms_of(case) for w in _WORD.findall(f))
+    forms = forms_of(case)
+    # calls of the syntactic known classes (circular data, astronomically large allocations / powers) make the model run
+    # until its fuel or time is exhausted; their classification needs the implementation's answer only
+    if any(classify_call(f) in ("cyclic-data", "make-vector-huge", "make-string-huge", "expt-astronomic") for f in forms):
+        return True
+    return any(w in UNMODELLED for f in forms for w in _WORD.findall(f))
 
 
 def _bad(line):
